@@ -408,3 +408,10 @@ def run(ctx):
             if not trunc:
                 ok, detail = True, "the reader no longer truncates on a decode failure"
         ctx.ob("R-C15.8", jr, "decode-failure-is-the-tail-only-after-looking-at-what-follows", ok, detail)
+
+    # ---- borrowed obligations (mechanisms owned by other properties that this property's verdict also rests on)
+    # items of a batch keep their journal order on replay (same bytes per key)
+    ctx.borrow("C04", ["R-C04.8"], "R-C15.9")
+    # damage handling: fatal only after a look
+    ctx.borrow("C03", ["R-C03.3"], "R-C15.10", only_instances=["decode-failure-is-fatal"])
+
